@@ -74,6 +74,10 @@ class C14(Property):
 
     def generate(self, rng, tier):
         n = 500 if tier == 'quick' else 15000
+        for _ in range(20 if tier == 'quick' else 400):
+            # a consumer built on the parser: edxml-to-delimited prints every event of one type once, in document order
+            items = [it for it in P.gen_items(rng, rng.randint(1, 12), faults=False) if it['k'] != 'foreign']
+            yield {'kind': 'cli', 'items': items, 'type': rng.choice(P.TYPES)}
         for _ in range(n):
             items = P.gen_items(rng, rng.randint(0, 14))
             regs = P.gen_regs(rng)
@@ -82,6 +86,19 @@ class C14(Property):
 
     def observe(self, case):
         import random
+        if case.get('kind') == 'cli':
+            import os
+            import tempfile
+            from vf.cli import run_cli
+            data, _ends = P.build_document(case['items'])
+            fd, name = tempfile.mkstemp(prefix='vf-c14-', suffix='.edxml')
+            try:
+                with os.fdopen(fd, 'wb') as f:
+                    f.write(data)
+                out, outcome = run_cli('edxml_to_delimited', ['-f', name, '-p', 'p', case['type']])
+            finally:
+                os.unlink(name)
+            return {'outcome': outcome, 'rows': out.decode('utf-8').split('\n')[:-1]}
         data, _ends = P.build_document(case['items'], case.get('version', '3.0.0'))
         cuts = None
         if case['mode'] == 'push':
@@ -90,11 +107,18 @@ class C14(Property):
         return P.run_parser(data, case['mode'], case['regs'], case['overridden'], case['validate'], cuts)
 
     def requests(self, case):
+        if case.get('kind') == 'cli':
+            # the tool is a parser whose event callback prints: one type handler (id 0) for the requested type
+            return [{'op': 'parse', 'reg': P.make_registry([['type', [case['type']], 0]], False, True),
+                     'chunks': [P.model_items(case['items'])], 'rootEnd': True, 'versionOk': True}]
         return [{'op': 'parse', 'reg': P.make_registry(case['regs'], case['overridden'], case['validate']),
                  'chunks': [P.model_items(case['items'])], 'rootEnd': True,
                  'versionOk': case.get('version', '3.0.0') == '3.0.0'}]
 
     def predict(self, case, replies):
+        if case.get('kind') == 'cli':
+            r = replies[0]
+            return {'outcome': None if r['err'] is None else r['err'], 'rows': ['v%d' % c[-1] for c in r['log'] if c[0] == 'h']}
         v = P.model_view(replies[0], case['items'])
         # the number of children is only observable when some callback saw the tree
         saw_tree = any(c[0] in ('h', 'fb', 'f') for c in v['log'])
@@ -103,6 +127,14 @@ class C14(Property):
         return v
 
     def oracle(self, case, obs):
+        if case.get('kind') == 'cli':
+            want = ['v%d' % it['idx'] for it in case['items'] if it['k'] == 'event' and it['type'] == case['type']]
+            if obs['outcome'] is not None:
+                # documents without faults: the only error is an event whose type or source no ontology element defined yet
+                return None
+            if obs['rows'] != want:
+                return 'edxml-to-delimited printed %r for the events %r of type %s' % (obs['rows'], want, case['type'])
+            return None
         log, n, delivered, err = expected_log(case['items'], case['regs'], case['overridden'], case['validate'])
         ev = lambda lg: [c for c in lg if c[0] in ('h', 'fb', 'f')]
         if ev(obs['log']) != ev(log):
@@ -130,6 +162,8 @@ class C14(Property):
 
     def neighbours(self, case, rng):
         out = []
+        if case.get('kind') == 'cli':
+            return []
         for _ in range(80):
             c = json.loads(json.dumps(case))
             c['regs'] = P.gen_regs(rng)
@@ -142,12 +176,14 @@ class C14(Property):
             c = json.loads(json.dumps(case))
             del c['items'][i]
             yield c
-        for i in range(len(case['regs'])):
+        for i in range(len(case.get('regs', []))):
             c = json.loads(json.dumps(case))
             del c['regs'][i]
             yield c
 
     def nontrivial(self, case):
+        if case.get('kind') == 'cli':
+            return json.dumps(case, sort_keys=True) if sum(1 for it in case['items'] if it['k'] == 'ont') > 1 else None
         if not case['regs'] or not any(it['k'] == 'event' for it in case['items']):
             return None
         return json.dumps(case, sort_keys=True)
